@@ -311,3 +311,94 @@ def open_calls(mod: Mod):
                 m = mode.value if isinstance(mode, ast.Constant) else ("r" if mode is None else "?")
                 out.append((q, n, m))
     return out
+
+
+CACHE_DECORATORS = {"functools.lru_cache", "functools.cache", "lru_cache", "cache", "functools.cached", "cachetools.cached", "joblib.Memory.cache"}
+
+
+def process_wide_caches(mod: Mod):
+    """functions memoised for the life of the process (functools.lru_cache/cache on a module-level function or a
+    method): [(qualname, node, why it is history-dependent)].  A memo is harmless only for a pure function of
+    immutable arguments returning an immutable value; it is reported when the function reads a file / the file system
+    (the cache key does not contain the file's content) or returns a freshly built mutable container (callers share it)."""
+    out = []
+    for q, f in mod.funcs.items():
+        deco = None
+        for d in f.decorator_list:
+            name = dotted_name(d.func if isinstance(d, ast.Call) else d) or ""
+            if name in CACHE_DECORATORS or name.split(".")[-1] in ("lru_cache", "cache", "memoize", "memoized"):
+                deco = name
+        if deco is None:
+            continue
+        reasons = []
+        for c in ast.walk(f):
+            if isinstance(c, ast.Call):
+                nm = dotted_name(c.func) or ""
+                if nm in ("open", "io.open") or nm.split(".")[-1] in ("read_table", "read_csv", "load", "safe_load", "loadtxt", "read_text", "glob", "exists", "is_file"):
+                    reasons.append(f"reads external state through {nm}()")
+        rets = [r.value for r in ast.walk(f) if isinstance(r, ast.Return) and r.value is not None]
+        if any(isinstance(r, (ast.List, ast.Dict, ast.Set, ast.ListComp, ast.DictComp)) or
+               (isinstance(r, ast.Call) and (dotted_name(r.func) or "").split(".")[-1] in ("list", "dict", "array", "zeros", "DataFrame")) for r in rets):
+            reasons.append("returns a mutable container that every caller then shares")
+        if isinstance(f.args.args[0].arg if f.args.args else None, str) and f.args.args and f.args.args[0].arg == "self":
+            reasons.append("keeps every instance alive and shares results between calculations through self-keyed entries")
+        if not reasons:
+            reasons.append("its result (and anything reachable from it) is shared by every later call in the process")
+        out.append((q, f, f"@{deco}: " + "; ".join(sorted(set(reasons)))))
+    return out
+
+
+INPLACE_METHODS = {"ito", "ito_base_units", "ito_reduced_units", "ito_root_units", "sort", "fill", "resize", "put", "itemset", "partition",
+                   "setfield", "byteswap"}
+VIEW_WRAPPERS = {"Quantity", "asarray", "asanyarray", "ascontiguousarray", "atleast_1d", "atleast_2d", "ravel", "reshape", "squeeze",
+                 "transpose", "view", "diagonal", "getattr"}
+
+
+def shared_value_expr(n, shared_locals) -> bool:
+    """expression that denotes (a view of / a wrapper around) an object owned by someone else"""
+    if isinstance(n, ast.Attribute):
+        if n.attr in ("T", "real", "imag", "magnitude", "m", "values"):
+            return shared_value_expr(n.value, shared_locals)
+        return not (isinstance(n.value, ast.Name) and n.value.id in ("numpy", "np", "math"))
+    if isinstance(n, ast.Name):
+        return n.id in shared_locals
+    if isinstance(n, ast.Subscript):
+        return shared_value_expr(n.value, shared_locals)
+    if isinstance(n, ast.Call):
+        name = (dotted_name(n.func) or "").split(".")[-1]
+        if name in VIEW_WRAPPERS and n.args:
+            if name == "getattr":
+                return True
+            return shared_value_expr(n.args[0], shared_locals)
+        if isinstance(n.func, ast.Attribute) and n.func.attr in ("view", "reshape", "ravel", "squeeze", "transpose", "to") and False:
+            return shared_value_expr(n.func.value, shared_locals)
+    return False
+
+
+def inplace_on_shared(mod: Mod):
+    """in-place operations on locals that alias shared values: [(qualname, node, description)]"""
+    out = []
+    for q, f in mod.funcs.items():
+        params = {a.arg for a in f.args.posonlyargs + f.args.args + f.args.kwonlyargs} - {"self", "cls"}
+        shared = {}
+        order = [st for st in ast.walk(f) if isinstance(st, (ast.Assign, ast.AugAssign, ast.Expr))]
+        order.sort(key=lambda st: (st.lineno, st.col_offset))
+        for st in order:
+            if isinstance(st, ast.Assign) and len(st.targets) == 1 and isinstance(st.targets[0], ast.Name):
+                tgt = st.targets[0].id
+                if shared_value_expr(st.value, set(shared)) and not isinstance(st.value, ast.Name):
+                    shared[tgt] = src(st.value)[:60]
+                elif isinstance(st.value, ast.Name) and st.value.id in shared:
+                    shared[tgt] = shared[st.value.id]
+                else:
+                    shared.pop(tgt, None)
+            elif isinstance(st, ast.AugAssign) and isinstance(st.target, ast.Name) and st.target.id in shared:
+                out.append((q, st, f"augmented assignment on {st.target.id} = {shared[st.target.id]}"))
+            elif isinstance(st, ast.Expr) and isinstance(st.value, ast.Call) and isinstance(st.value.func, ast.Attribute) \
+                    and st.value.func.attr in INPLACE_METHODS:
+                root = st.value.func.value
+                if isinstance(root, ast.Name) and root.id in shared:
+                    out.append((q, st, f"{root.id}.{st.value.func.attr}() on {root.id} = {shared[root.id]}"))
+                elif shared_value_expr(root, set(shared)) and not isinstance(root, ast.Name):
+                    out.append((q, st, f"{src(st.value.func)}() on a shared value"))
+    return out
